@@ -592,7 +592,7 @@ VC_ENSURES((VC_OLD(parser->error_flags) == BINSON_ERROR_NONE &&
            (!VC_RET && parser->error_flags == BINSON_ERROR_NONE &&
             parser->buffer_used == VC_OLD(parser->buffer_used) && parser->depth == VC_OLD(parser->depth) &&
             parser->current_state == VC_OLD(parser->current_state)))                               /*@ raw-noncontainer */
-VC_ENSURES(VC_RET ==> (raw->bptr == parser->buffer + VC_OLD(parser->buffer_used) &&
+VC_ENSURES(VC_RET ==> (VC_PTR_EQ(raw->bptr, parser->buffer + VC_OLD(parser->buffer_used)) &&
                        raw->bsize == parser->buffer_used - VC_OLD(parser->buffer_used) &&
                        VC_IN_BUF(parser, *raw)))                                                   /*@ raw-in-buffer */
 {
